@@ -23,20 +23,24 @@ def main():
     checks = sys.argv[4:] or [prop]
     out = os.path.join(VERIF, 'seeded', sid)
     os.makedirs(out, exist_ok=True)
-    for f in ('patch.diff', 'demo.cpp', 'notes.md'):
+    for f in ('patch.diff', 'demo.cpp', 'notes.md', 'flags.txt'):
         if os.path.exists(os.path.join(src, f)):
             shutil.copy(os.path.join(src, f), os.path.join(out, f))
-    meta = dict(id=sid, property=prop, source='independent sub-agent given only the property text and a scratch worktree')
+    flags = '-std=c++17'
+    if os.path.exists(os.path.join(out, 'flags.txt')):
+        fl = open(os.path.join(out, 'flags.txt')).read().strip()
+        flags = fl if '-std=' in fl else '-std=c++17 ' + fl
+    meta = dict(id=sid, demo_flags=flags, property=prop, source='independent sub-agent given only the property text and a scratch worktree')
     wt = '/tmp/seedwt_%s' % sid
     sh('git -C /repo worktree remove --force %s' % wt)
     r = sh('git -C /repo worktree add --detach %s HEAD' % wt)
     try:
         # demo on the clean tree
-        r = sh('g++ -std=c++17 -I%s/include %s/demo.cpp -o %s/demo_clean && %s/demo_clean' % (wt, out, wt, wt), timeout=600)
+        r = sh('g++ %s -I%s/include %s/demo.cpp -o %s/demo_clean && %s/demo_clean' % (flags, wt, out, wt, wt), timeout=600)
         meta['demo_clean_exit'] = r.returncode
         r = sh('git -C %s apply %s/patch.diff' % (wt, out))
         meta['patch_applies'] = r.returncode == 0
-        r = sh('g++ -std=c++17 -I%s/include %s/demo.cpp -o %s/demo_mut && %s/demo_mut' % (wt, out, wt, wt), timeout=600)
+        r = sh('g++ %s -I%s/include %s/demo.cpp -o %s/demo_mut && %s/demo_mut' % (flags, wt, out, wt, wt), timeout=600)
         meta['demo_mutated_exit'] = r.returncode
         meta['demo_mutated_tail'] = r.stdout[-400:]
         if os.environ.get('SKIP_SUITE') != '1':
